@@ -320,7 +320,8 @@ func init() {
 // Text codecs on opaque strings, as uninterpreted functions with their
 // round-trip laws (each law is validated on bounded exploded strings by a
 // C16 harness running the real strconv code):
-//   Unquote(fmt_q(s)) = s          ParseInt(fmt_itoa10(x)) = x
+//
+//	Unquote(fmt_q(s)) = s          ParseInt(fmt_itoa10(x)) = x
 func init() {
 	intrinsics["strconv.Unquote"] = func(in *Interp, fr *frame, a []Value) (Value, bool) {
 		o, ok := a[0].(OStr)
